@@ -147,24 +147,29 @@ pub struct CallRes {
     pub with_idx: Result<(Option<u16>, Vec<u32>), String>,
 }
 
-/// run the selected algorithms for every applicable representation pair, each on a fresh matcher
+/// run the selected algorithms for every applicable representation pair. One matcher serves the
+/// whole case (independence of the call history is C10's property and is checked there against
+/// fresh matchers); it is replaced after a panic.
 pub fn run_calls(hay: &Strs, needle: &Strs, cfg: Cfg, algos: &[Algo], prior: &[u32], cap_mode: u8) -> Vec<CallRes> {
     let mut out = vec![];
+    let mut m = Matcher::new(cfg.to_config());
     for hr in hay.reprs() {
         for nr in needle.reprs() {
             for &algo in algos {
                 let h = hay.get(hr);
                 let n = needle.get(nr);
-                let score_only = guarded(|| {
-                    let mut m = Matcher::new(cfg.to_config());
-                    call(&mut m, algo, h, n, None)
-                });
+                let score_only = guarded(|| call(&mut m, algo, h, n, None));
+                if score_only.is_err() {
+                    m = Matcher::new(cfg.to_config());
+                }
                 let with_idx = guarded(|| {
-                    let mut m = Matcher::new(cfg.to_config());
                     let mut v = prior_vec(prior, cap_mode);
                     let r = call(&mut m, algo, h, n, Some(&mut v));
                     (r, v)
                 });
+                if with_idx.is_err() {
+                    m = Matcher::new(cfg.to_config());
+                }
                 out.push(CallRes { algo, hr, nr, score_only, with_idx });
             }
         }
